@@ -43,7 +43,7 @@ def cases(run: Run):
     rng = run.rng
     out = list(corpus(PID))
     for _ in range(run.n(36, 300)):
-        kind = rng.choice(["split", "split", "batch", "batch", "bulk", "kepler", "epoch", "epoch", "loop"])
+        kind = rng.choice(["split", "split", "batch", "batch", "bulk", "kepler", "epoch", "epoch", "loop", "reuse"])
         model = "sp" if kind == "epoch" else rng.choice(["two_body", "two_body", "sp"])
         c = {"kind": kind, "model": model, "method": rng.choice(["RK45", "DOP853"]), "orbit": orbit(rng), "seed": rng.randint(0, 10**6)}
         if model == "sp":
@@ -171,6 +171,40 @@ def impl_run(c):
         da = make_dyn(c, jd_a)._differentialEquation(float(c["shift"] + dur), x0.copy())
         db = make_dyn(c, jd_b)._differentialEquation(float(dur), x0.copy())
         out["da"], out["db"] = [float(v) for v in da], [float(v) for v in db]
+        # ... and each switchable term by itself (with the term minus without it), described both ways: a small term such as radiation
+        # pressure would otherwise hide below the rounding of the total
+        out["terms"] = {}
+        for name, off in (("srp", {"srp": False}), ("gr", {"gr": False}), ("bodies", {"bodies": []}), ("geopotential", {"degree": 0})):
+            if (name == "srp" and not c["sp"]["srp"]) or (name == "gr" and not c["sp"]["gr"]) or (name == "bodies" and not c["sp"]["bodies"]):
+                continue
+            c_off = dict(c, sp={**c["sp"], **off})
+            ta = np.array(da) - np.array(make_dyn(c_off, jd_a)._differentialEquation(float(c["shift"] + dur), x0.copy()))
+            tb = np.array(db) - np.array(make_dyn(c_off, jd_b)._differentialEquation(float(dur), x0.copy()))
+            out["terms"][name] = ([float(v) for v in ta[3:]], [float(v) for v in tb[3:]])
+    elif kind == "reuse":
+        # one dynamics object with a history (an impulse, a finite burn that outlasts its call) against a fresh object on an event-free call
+        from resonaate.dynamics.integration_events import scheduled_impulse as si
+        from resonaate.dynamics.integration_events.finite_thrust import ScheduledFiniteBurn
+        dyn = make_dyn(c)
+        t0 = c["t0"]
+        span = min(c["dur"], 1800.0)
+        old_push = si.EventStack.pushEvent
+        si.EventStack.pushEvent = classmethod(lambda cls, rec: None)
+        try:
+            hist = []
+            if c["seed"] % 2 == 0:
+                hist.append(si.ScheduledECIImpulse(T(t0 + span / 3), np.array([0.0, 0.001, 0.0]), 1))
+            # a burn that starts inside the first call and is still running when it ends
+            from functools import partial
+
+            from resonaate.dynamics.integration_events.finite_thrust import eciBurn
+
+            hist.append(ScheduledFiniteBurn(T(t0 + span / 2), T(t0 + 3 * span), partial(eciBurn, acc_vector=np.array([0.0, 1e-6, 0.0])), 1))
+            x_mid = dyn.propagate(T(t0), T(t0 + span), x0.copy(), scheduled_events=hist)
+        finally:
+            si.EventStack.pushEvent = old_push
+        out["reused"] = [float(v) for v in dyn.propagate(T(t0 + span), T(t0 + 2 * span), np.array(x_mid))]
+        out["fresh"] = [float(v) for v in make_dyn(c).propagate(T(t0 + span), T(t0 + 2 * span), np.array(x_mid))]
     elif kind == "loop":
         from resonaate.dynamics.celestial import Celestial
         from resonaate.dynamics.integration_events import scheduled_impulse as si
@@ -254,6 +288,11 @@ def oracle(run: Run, c, impl):
             same("bulk", b, s, f"output {k} of propagateBulk (t={o['times'][k]:.2f}) against a separate propagate call")
             if fails:
                 break
+    if c["kind"] == "reuse":
+        if o["reused"] != o["fresh"]:
+            dp, dv = diff(o["reused"], o["fresh"])
+            fails.append(("reuse", f"an event-free propagation on a dynamics object that earlier ran a call with events differs from the same call on a fresh object "
+                                   f"by {dp:.6g} km, {dv:.3g} km/s ({desc})"))
     if c["kind"] == "epoch":
         same("epoch", o["a"], o["b"], f"the interval starting {c['shift']} s after {c['start']} described as (start, elapsed) and as (shifted start, 0) [{c['epoch_kind']}]",
              # with radiation pressure the shadow entry/exit is a kink in the force: two runs whose step sequences differ (here only through rounding of the time variable)
@@ -261,6 +300,16 @@ def oracle(run: Run, c, impl):
              pt=1e-3 if c["sp"]["srp"] else 2e-6, vt=1e-6 if c["sp"]["srp"] else 2e-9)
         da, db = np.array(o["da"]), np.array(o["db"])
         rel = float(np.linalg.norm(da[3:] - db[3:]) / np.linalg.norm(da[3:]))
+        for name, (ta, tb) in o.get("terms", {}).items():
+            ta, tb = np.array(ta), np.array(tb)
+            scale = float(np.linalg.norm(ta))
+            # the term is a difference of two totals: it is known to the rounding of the total only
+            floor = 4e-16 * float(np.linalg.norm(da[3:]))
+            rt = float(np.linalg.norm(ta - tb) / max(scale, 1e-300))
+            run.worse(f"epoch:term:{name}", rt if scale > 1e3 * floor else 0.0)
+            if scale > 1e3 * floor and not rt <= 1e-5 + 10 * floor / scale:
+                fails.append(("epoch:term", f"the {name} term at the same absolute instant differs by {rt:.3g} (relative) between the two descriptions of the epoch "
+                                            f"[{c['epoch_kind']}, start {c['start']}, shift {c['shift']}] ({desc})"))
         run.worse("epoch:acc", rel)
         if not rel <= 1e-9:
             fails.append(("epoch:acceleration", f"the acceleration at the same absolute instant differs by {rel:.3g} (relative) between the two descriptions of the epoch [{c['epoch_kind']}, start {c['start']}, shift {c['shift']}] ({desc})"))
